@@ -72,6 +72,10 @@ TIMEOUT_SHAPES = {
     'GTCT': (True, [['call', {'name': 'slow'}, {'timeout': 1}], ['call', {'name': 'slow'}, {'timeout': 1}], ['call', {'name': 'k'}, {'timeout': 9}], ['yield', 'a']]),
     'GTX': (True, [['call', {'name': 'slow'}, {'timeout': 1}], ['call', {'name': 'k'}, {}], ['raise']]),
 }
+# ... and a sweep of timeouts across the time the awaited event takes: one of them expires in the very iteration in which the event finishes
+for _k in range(2, 13):
+    TIMEOUT_SHAPES['GT%d' % _k] = (True, [['call', {'name': 'slow'}, {'timeout': _k}], ['yield', 'a']])
+    TIMEOUT_SHAPES['GW%d' % _k] = (True, [['wait', {'name': 'slow'}, {'timeout': _k}], ['yield', 'b']])
 ALLF = {'success': True, 'failure': True, 'notify': True}
 
 
@@ -273,6 +277,10 @@ def corpus():
         for fl in (ALLF, {'failure': True}, {}):
             cs.append({'handlers': mk_handlers('e', shapes) + [dict(h) for h in EH], 'fires': [{'name': 'e', 'flags': fl}]})
             cs.append({'handlers': mk_handlers('e', shapes) + [dict(EH[0])], 'fires': [{'name': 'e', 'flags': fl}, {'name': 'e', 'flags': fl}]})
+    for k in range(2, 13):
+        for sh in ('GT%d' % k, 'GW%d' % k):
+            cs.append({'handlers': mk_handlers('e', [sh]), 'fires': [{'name': 'e', 'flags': ALLF}], 'under_run': True})
+            cs.append({'handlers': mk_handlers('e', [sh, 'R']), 'fires': [{'name': 'e', 'flags': {'success': True}}], 'under_run': True})
     # events whose name is not the name of their class (a class with a name attribute; an instance renamed after construction)
     for mk in ('attr', 'renamed'):
         for shapes in (['R'], ['X', 'G1v'], ['G2vv', 'R'], ['GX1'], ['N'], ['RV', 'R'], ['G1v', 'X', 'R']):
